@@ -2,6 +2,7 @@
 //! Reads one JSON request per line from the file given as argv[1] (or stdin), writes one
 //! JSON response per line to stdout.  Every request runs inside catch_unwind.
 mod cmp;
+mod multi;
 mod oracle;
 mod render;
 mod stack;
@@ -17,6 +18,8 @@ fn dispatch(req: &J) -> J {
         "cmp" => cmp::run(req),
         "oracle" => oracle::run(req),
         "render" => render::run(req),
+        "history" => multi::history(req),
+        "threads" => multi::threads(req),
         k => json!({"error": format!("unknown kind {}", k)}),
     }
 }
